@@ -103,7 +103,15 @@ def rand_bytes(rng, n):
 
 def rand_secret(rng):
     n = rng.choice([1, 2, 6, 8, 16, 31, 63, 64, 65, 100, 255, rng.randrange(1, 256)])
-    return rand_bytes(rng, n)
+    b = rand_bytes(rng, n)
+    if n >= 6 and b[0] < 40:
+        # text that LOOKS like an escape once the configuration's own escaping has been taken off: '%' + two hex digits, "%%", a
+        # trailing '%' (decided by an octet already drawn, so that no further random draw is consumed)
+        k = b[1] % (n - 3)
+        b = b[:k] + [b"%41", b"%00", b"%%4", b"%2e", b"%zz"][b[2] % 5] + b[k + 3:]
+        if b[3] & 1:
+            b = b[:-1] + b"%"
+    return b
 
 
 LEN_BIAS = [0, 1, 2, 4, 6, 16, 17, 18, 34, 128, 247, 253]
